@@ -58,6 +58,22 @@ def ignore_chain_cases():
     return out
 
 
+def empty_threads_cases():
+    """`threads` present but empty — on the benchmark, inherited from a group, or set through the builder
+    (`Divan::threads([])`): every listed case still runs exactly once."""
+    out = []
+    for (og, ol) in [("-", "ne"), ("ne", "-"), ("ne", "n"), ("te", "f"), ("n", "fe"), ("ne", "ne"), ("-", "-"), ("te", "-")]:
+        for flag in "noy":
+            r = T.Reg()
+            r.bench("cr::g", "plain", opts=ol)
+            r.bench("cr::g", "withargs", opts=ol, kind="i", vals=[1, 2, 3])
+            r.bench("cr", "top", opts="-")
+            r.generic_fn("cr::g", "gen", types=[0, 1], opts=ol)
+            r.group("cr", "g", opts=og)
+            out.append(r.line("TRmnLE", ign=flag))
+    return out
+
+
 def nt(case, model):
     return "=C" in model
 
@@ -79,9 +95,9 @@ def hist_of(cases):
             h["has_generic"] += 1
         if any(i.split(",")[8] != "p" for i in items[1:]):
             h["has_args"] += 1
-        if any(i.split(",")[7] == "t" for i in items[1:]):
+        if any(i.split(",")[7].startswith("t") for i in items[1:] if i[:2] in ("B,", "G,")):
             h["has_ignore_true"] += 1
-        if any(i.split(",")[7] == "f" for i in items[1:]):
+        if any(i.split(",")[7].startswith("f") for i in items[1:] if i[:2] in ("B,", "G,")):
             h["has_ignore_false"] += 1
     return h
 
@@ -100,7 +116,7 @@ def streams(tier, rng):
             exact, pos, skip = T.rand_filters(rng, reg)
         else:
             exact, pos, skip = False, [], []
-        rand.append(reg.line("TRLA", ign=ign, exact=exact, pos=pos, skip=skip, sort=rng.choice("-knlKNL")))
+        rand.append(reg.line("TRLA" + ("mn" if rng.random() < 0.2 else ""), ign=ign, exact=exact, pos=pos, skip=skip, sort=rng.choice("-knlKNL")))
     rt = []
     while len(rt) < n_rt:
         reg = T.rand_registry(rng, max_items=6, max_args=3)
@@ -115,6 +131,9 @@ def streams(tier, rng):
     out = []
     if corpus:
         out.append(Stream("corpus", "c14", corpus, nontrivial=nt, hist=hist_of(corpus)))
+    et = empty_threads_cases()
+    out.append(Stream("empty-threads", "c14", et, nontrivial=nt, hist=hist_of(et),
+                      describe="threads = [] on the benchmark, inherited from a group, and Divan::threads([]) through the builder"))
     out.append(Stream("flag-combinations", "c14", combos, nontrivial=nt,
                       describe="--list --bench, --bench --list, terse variants under NEXTEST=1 with --bench, --test --bench, --bench --test, "
                                "no action flag, --list --test (rejected by clap); the model's action_of_flags says which action results"))
